@@ -8,6 +8,11 @@ THEOREMS = [
     "NakenVerif.TwoPass.accepted_labels_stable",
     "NakenVerif.TwoPass.moved_label_is_error",
     "NakenVerif.TwoPass.label_is_placement",
+    "NakenVerif.TwoPass.label_is_placement_no_pad",
+    "NakenVerif.TwoPass.pad_breaks_placement",
+    "NakenVerif.TwoPass.func_moved_is_rejected",
+    "NakenVerif.TwoPass.msp430_pad_counterexample",
+    "NakenVerif.TwoPass.avr8_skip_counterexample",
     "NakenVerif.TwoPass.labels_stable",
     "NakenVerif.TwoPass.data_size_stable",
     "NakenVerif.TwoPass.flag_idiom_size_stable",
@@ -17,19 +22,27 @@ THEOREMS = [
     "NakenVerif.TwoPass.value_changed_sizes_differ",
     "NakenVerif.TwoPass.flag_overwritten_is_rejected",
 ]
-RULE = ("programs per CPU: a label before and after every statement; operands are constants, backward and forward "
-        "labels whose values admit the short encoding or need the long one; low and high areas via .org; data "
-        "directives between instructions; every program with and without -optimize.  Non-trivial = program with at "
-        "least one forward reference to a small-valued label; distinct = distinct (cpu, source, optimize).")
-MODELLED = ("generic two-pass driver (label | emit with pass/flag dependent size | org | data) incl. the pass-2 "
-            "moved-label check of Symbols::append, the pass-1 flag byte idiom memory_write(address, flag)/"
-            "memory_read(address) and its MSP430 constant-generator instance")
+RULE = ("programs per CPU: a name before and after every statement, bound by `name:` (global or local to a .scope/"
+        ".func) or by `.func name`; operands are constants, backward and forward labels whose values admit the short "
+        "encoding or need the long one; low and high areas via .org; data directives between instructions, of even length "
+        "or (odd stream) of odd length without .align; every program with and without -optimize.  Non-trivial = program "
+        "with at least one forward reference to a small-valued label; distinct = distinct (cpu, source, optimize).")
+MODELLED = ("generic two-pass driver (name: | .func name | emit with pass/flag dependent size behind a back-end pad | org | "
+            "data) incl. the pass-2 moved-label check of Symbols::append (reached from both binding paths), the pass-1 "
+            "flag byte idiom memory_write(address, flag)/memory_read(address) and its MSP430 constant-generator instance, "
+            "the MSP430 pad byte / AVR8 word skip in front of an instruction at an odd counter")
 NOT_MODELLED = ("the per-CPU operand parsers: msp430, msp430x, 6502, 65816, 68hc08, 68000, mips, mips32, stm8, riscv, z80, "
-                "avr8, 6800, 8051, thumb, arm, tms9900, pdp11 are covered by the implementation-side search only "
-                "(p1 address = p2 address = placement); all other CPUs not exercised")
-ASSUMPTIONS = ["labels are re-bound in pass 2 through Symbols::set_debug() (the device of tests/symbol_address) to observe "
-               "pass-2 addresses; the production run (lock()) is observed through marker data following labels"]
-TRUSTED_BASE = ["tools/gen_prog.py program generator and its per-CPU form table"]
+                "avr8, 6800, 8051, thumb, arm, tms9900, pdp11, 6809, tms340 are covered by the implementation-side search "
+                "only (p1 address = p2 address = placement of the following data / code); all other CPUs not exercised; "
+                "names bound by imported symbols (AsmContext::link) not exercised")
+ASSUMPTIONS = ["names are re-bound in pass 2 through Symbols::set_debug() (the device of tests/symbol_address) to observe "
+               "pass-2 addresses; the production run (lock()) is observed through marker data following names, through the "
+               "bytes of position-independent statements (reference: the same statement assembled alone by the real code at "
+               "two aligned origins) and through Memory::debug_line (the byte that carries a statement's line, matched to "
+               "the source's instruction statements by rank)"]
+TRUSTED_BASE = ["tools/gen_prog.py program generator and its per-CPU form table",
+                "the encoding of a single statement assembled alone at an aligned origin (C01/C06 territory) is the reference "
+                "for where that statement's bytes are in a program"]
 
 CPUS_QUICK = ["msp430", "msp430x", "6502", "65816", "68hc08", "68000", "mips", "mips32", "stm8", "riscv", "z80", "avr8",
               "6800", "8051", "tms9900", "pdp11", "thumb", "arm", "6809", "tms340"]
